@@ -263,9 +263,11 @@ class Mono:
                 self.env[st.targets[0].id] = self.ev(st.value)
                 continue
             if isinstance(st, ast.Assign) and len(st.targets) == 1 and isinstance(st.targets[0], ast.Tuple):
-                for x in st.targets[0].elts:
+                # a, b = X: each name is X[i]; a fact known about X[i] carries over
+                base = ast.unparse(st.value)
+                for i_, x in enumerate(st.targets[0].elts):
                     if isinstance(x, ast.Name):
-                        self.env[x.id] = V('c', '?')
+                        self.env[x.id] = self.facts.get('%s[%d]' % (base, i_), V('c', '?'))
                 continue
             if isinstance(st, ast.AugAssign) and isinstance(st.target, ast.Name):
                 cur = ast.BinOp(left=ast.Name(id=st.target.id, ctx=ast.Load()), op=st.op, right=st.value)
